@@ -7,7 +7,9 @@ LEVEL = "proof"
 THEOREMS = ["C16_roundtrip", "C16_headerin", "C16_reject", "C16_count", "C16_query", "C16_query_iff_count",
             "C16_locale", "C16_case_insensitive"]
 TAGS = [b"TITLE", b"title", b"Title", b"ARTIST", b"artist", b"T", b"TI", b"TITLE2", b"\xc3\x84RGER", b"\xc3\xa4rger",
-        b"a.b", b"[]", b"{x}", b"`", b"@"]
+        b"a.b", b"[]", b"{x}", b"`", b"@",
+        # every letter, both ends of the alphabet next to their non-letter neighbours (@ A Z [ and ` a z {)
+        b"ORGANIZATION", b"organization", b"Zz", b"az", b"AZ", b"abcdefghijklmnopqrstuvwxyz", b"ABCDEFGHIJKLMNOPQRSTUVWXYZ", b"@AZ[", b"`az{"]
 
 
 def rbytes(rng, n, alphabet=None):
@@ -105,6 +107,9 @@ def gen_case(rng, i, tier):
         t = rng.choice(TAGS)
         if rng.random() < 0.2:
             t = rbytes(rng, rng.randint(0, 4))
+        elif rng.random() < 0.4:
+            # the same tag in another case (and the non-letters 32 away from letters, which must not match)
+            t = bytes(c ^ 0x20 if (64 <= c <= 91 or 96 <= c <= 123) and rng.random() < 0.5 else c for c in t)
         if rng.random() < 0.5:
             lines.append("count " + vlib.hexs(t))
             meta.setdefault("counts", []).append(t)
@@ -140,6 +145,33 @@ def oracle_factory(metas, vendor):
                 return "roundtrip: comment list changed (count %d vs %d)" % (n, len(want))
             if got_vendor != vlib.hexs(vendor):
                 return "roundtrip: vendor string differs"
+        # the queries themselves, against an independent evaluation of the statement on the list that was written: a tag matches an entry
+        # that begins with it (letters A-Z/a-z compared without case, every other byte exactly) followed by '='
+        if meta["kind"] == "roundtrip":
+            qops = []
+            for op in reversed(r["ops"]):
+                if op.startswith(("count ", "query ")):
+                    qops.append(op)
+                else:
+                    break
+            qops.reverse()
+            qout = out[len(out) - len(qops):] if len(out) > len(qops) else []
+
+            def up(b):
+                return bytes(c - 32 if 97 <= c <= 122 else c for c in b)
+            for op, ans in zip(qops, qout):
+                t = op.split(" ")
+                tag = (bytes.fromhex(t[1]) if t[1] != "-" else b"").split(b"\0")[0]
+                full = tag + b"="
+                hits = [k for k, e in enumerate(meta["cs"]) if len(e) >= len(full) and up(e[:len(full)]) == up(full)]
+                if t[0] == "count":
+                    if ans != "count %d" % len(hits):
+                        return "match-count: tag %r matches %d of the %d entries, the library says '%s'" % (tag, len(hits), len(meta["cs"]), ans)
+                else:
+                    k = int(t[2])
+                    want = "q idx=%d off=%d" % (hits[k], len(full)) if 0 <= k < len(hits) else "q none"
+                    if ans != want:
+                        return "query: tag %r, match %d: expected '%s', the library says '%s'" % (tag, k, want, ans)
         # count == number of successful queries (probe at the end of each case)
         tail = out[-5:]
         if tail and tail[0].startswith("count ") and tail[0] != "count nolist":
